@@ -767,3 +767,65 @@ def r_no_peek(cx):
             k += 1
     cx.ob("R-NO-PEEK", "summary", True, "%d tuple reads in operator code examined" % n, nontrivial=False)
     cx.count("R-NO-PEEK", "tuple_reads", n)
+
+
+@rule("R-COUNT-SPATIAL", ["C10", "C14"])
+def r_count_spatial(cx):
+    """cart converts the three spatial elements and passes the time through untouched: a tuple whose position converts is
+    inside its domain and is counted, whatever its time element holds - 3D data reads as time = NaN, and every kp line
+    without a time column does. The NaN test that guards the success count in cart_fwd / cart_inv looks at (at most) the
+    three spatial results, never at the time element."""
+    import guards
+    n = 0
+    for fn in ("inner_op::cart::cart_fwd", "inner_op::cart::cart_inv"):
+        if not cx.f.has_fn(fn):
+            cx.ob("R-COUNT-SPATIAL", "%s/anchor" % fn, False, "anchor-missing: %s" % fn)
+            continue
+        f = cx.f.fn(fn)
+        k = 0
+        for bb, i, st in f.all_stmts():
+            if not (st["k"] == "assign" and st["rv"]["k"] == "bin" and str(st["rv"].get("op", "")).startswith("Add") and
+                    f.innermost_loop(bb) is not None and "usize" in str(f.local_ty(st["place"]["l"]))):
+                continue
+            v = f.rvalue(st["rv"], (bb, i))
+            if not (is_const_num(mir.strip_refs(v[3]), 1) and mir.strip_refs(v[2])[0] == "loopphi"):
+                continue
+            for at, tv in guards.branch_facts(f, bb):
+                at = mir.strip_refs(at)
+                if not (at[0] == "call" and isinstance(at[1], str) and at[1].rsplit("::", 1)[-1] in ("any", "all") and at[2]):
+                    continue
+                src = at[2][0]
+                at_bb = bb
+                for _ in range(6):
+                    src = mir.strip_refs(src)
+                    if src[0] == "refplace" and not src[3]:
+                        # a temporary array: its value where the iterator over it was made
+                        src = f.local_value(src[2], f.end_point(at_bb))
+                    elif src[0] == "cast":
+                        src = src[2]
+                    elif src[0] == "call" and isinstance(src[1], str) and src[1].rsplit("::", 1)[-1] in ("iter", "into_iter") and src[2]:
+                        if len(src) > 3 and isinstance(src[3], int):
+                            at_bb = src[3]
+                        src = src[2][0]
+                    else:
+                        break
+                src = mir.strip_refs(src)
+                n += 1
+                bad = None
+                if src[0] == "agg" and src[1] == "array":
+                    timeish = [e for e in src[2] if mir.strip_refs(e)[0] == "proj" and mir.strip_refs(e)[2] == ("elem", 3)]
+                    if len(src[2]) > 3 or timeish:
+                        bad = "%d values, the time element among them" % len(src[2])
+                elif src[0] == "call" and isinstance(src[1], str) and src[1].endswith("::index") and len(src[2]) == 2:
+                    r = mir.strip_refs(src[2][1])
+                    hi = r[2][-1] if r[0] == "agg" and r[2] else None
+                    if not (hi is not None and is_const_num(mir.strip_refs(hi)) and mir.strip_refs(hi)[2] <= 3 and "RangeTo" in str(r[1])):
+                        bad = "a slice that is not limited to the first three elements"
+                elif src[0] == "proj" and src[2] == ("f", 0):
+                    bad = "all four elements of the result"
+                cx.ob("R-COUNT-SPATIAL", "%s/count%d" % (fn.rsplit("::", 1)[-1], k), bad is None,
+                      "%s counts a tuple by its spatial results" % fn.rsplit("::", 1)[-1] if bad is None else
+                      "%s counts a tuple only if %s are not NaN: a converted position with time = NaN (all 3D data) is reported "
+                      "as unsuccessful" % (fn.rsplit("::", 1)[-1], bad), cx.where(st.get("span")))
+                k += 1
+    cx.count("R-COUNT-SPATIAL", "count_tests", n)
